@@ -118,6 +118,10 @@ class XFe(XArray):
         return self.ndim - 2
 
     @property
+    def _shape(self):
+        return self.shape[2:]
+
+    @property
     def T(self):
         if self._ndim == 2:
             ax = list(range(self.ndim))
